@@ -506,6 +506,9 @@ def run(prog, rep):
 
 CF = 'fim/graph/resources/neo4j_cbm.py'
 MUTANTS = [
+    {'name': 'rollback-deletes-before-checking-snapshot', 'file': 'fim/graph/resources/abc_cbm.py', 'rule': 'R4',
+     'find': "        if not cbm_temp.graph_exists():\n            raise PropertyGraphQueryException(graph_id=graph_id, node_id=None,\n                                              msg=\"Unable to roll back, no such snapshot\")\n",
+     'replace': ""},
     {'name': 'unmerge-leaves-empty-text', 'file': 'fim/graph/resources/neo4j_cbm.py', 'rule': 'R6',
      'find': "                    self.unset_node_property(node_id=node, prop_name=del_prop)\n",
      'replace': "                    self.update_node_property(node_id=node, prop_name=del_prop, prop_val='')\n"},
@@ -517,8 +520,8 @@ MUTANTS = [
     {'name': 'contributor-appended-with-temp-id', 'file': CF, 'rule': 'R2',
      'find': 'si.adm_graph_ids.append(adm.graph_id)', 'replace': 'si.adm_graph_ids.append(temp_adm_graph.graph_id)'},
     {'name': 'rollback-rehome-before-delete', 'file': 'fim/graph/resources/abc_cbm.py', 'rule': 'R4',
-     'find': '        # delete self\n        self.delete_graph()\n        # clone other graph into self\n        cbm_temp = self.importer.cast_graph(graph_id=graph_id)\n        # renumber cbm temp to be the original graph id\n        cbm_temp.update_nodes_property(prop_name=ABCPropertyGraphConstants.GRAPH_ID,\n                                       prop_val=self.graph_id)',
-     'replace': '        cbm_temp = self.importer.cast_graph(graph_id=graph_id)\n        cbm_temp.update_nodes_property(prop_name=ABCPropertyGraphConstants.GRAPH_ID,\n                                       prop_val=self.graph_id)\n        self.delete_graph()'},
+     'find': '        # delete self\n        self.delete_graph()\n        # clone other graph into self\n        # renumber cbm temp to be the original graph id\n        cbm_temp.update_nodes_property(prop_name=ABCPropertyGraphConstants.GRAPH_ID,\n                                       prop_val=self.graph_id)',
+     'replace': '        cbm_temp.update_nodes_property(prop_name=ABCPropertyGraphConstants.GRAPH_ID,\n                                       prop_val=self.graph_id)\n        self.delete_graph()'},
     {'name': 'both-sides-guard-dropped', 'file': CF, 'rule': 'R5',
      'find': "            if adm_delegations is not None and cbm_delegations is not None:\n                raise PropertyGraphQueryException(graph_id=self.graph_id, node_id=node_id,\n                                                  msg=f'This node contains delegations from both CBM and ADM graph,'\n                                                      f'which is not allowed.')\n",
      'replace': ''},
